@@ -71,6 +71,10 @@ type Bucket struct {
 	hints     *hintMgr
 	datas     *dataStore
 	GCHistory []GCState
+
+	// 1 while the goroutine started by open is still loading (or rebuilding) the
+	// hints of the lower chunks
+	loadingHints int32
 }
 
 func (bkt *Bucket) release() {
@@ -241,7 +245,9 @@ func (bkt *Bucket) open(bucketID int, home string) (err error) {
 			bkt.hints.maxDumpedHintID = HintID{i, startsp + j}
 		}
 	}
+	atomic.StoreInt32(&bkt.loadingHints, 1)
 	go func() {
+		defer atomic.StoreInt32(&bkt.loadingHints, 0)
 		for i := 0; i < bkt.TreeID.Chunk; i++ {
 			bkt.checkHintWithData(i)
 		}
